@@ -56,9 +56,9 @@ def _sample(f, depth, ints=None):
     if bt == "bool":
         return True
     if bt == "binary":
-        return b"ab"
+        return b"a\x00b"             # binary values (statistics) hold arbitrary bytes
     if bt == "string":
-        return "cd"
+        return "c\x00d"              # so may text (a str is serialised through a char*: every byte counts)
     if bt == "double":
         return 1.5
     if bt == "struct":
